@@ -457,6 +457,8 @@ class Check:
         # CV_EVIDENCE_DIR: used only by tools/run_seeded.py so that runs against a deliberately broken tree
         # do not overwrite the evidence of the real tree
         evdir = os.environ.get("CV_EVIDENCE_DIR") or os.path.join(VERIF, "evidence")
+        if self.replay:
+            evdir = os.path.join(VERIF, "replays", "evidence_of_last_replay")  # a replay never overwrites the run's evidence
         os.makedirs(evdir, exist_ok=True)
         with open(os.path.join(evdir, f"{self.pid}.json"), "w") as f:
             json.dump(ev, f, indent=1, default=str)
